@@ -100,7 +100,7 @@ def binop_broadcast(ob, op, dx, dy):
     ob.frame()
 
 
-SCALAR_KINDS = ['int', 'float', 'np.float64', 'np.int64', 'np.float32', 'tensor0', 'tensor1', 'tensor0_f32', 'tensor1_f64']
+SCALAR_KINDS = ['int', 'float', 'np.float64', 'np.int64', 'np.float32', 'tensor0', 'tensor1', 'tensor0_f32', 'tensor1_f64', 'np.uint8']
 SCALAR_OPS = ['add', 'radd', 'sub', 'rsub', 'mul', 'rmul', 'div']
 
 
